@@ -15,6 +15,7 @@ import XsdataModel.Proofs.OccursBasic
 import XsdataModel.Proofs.OccursSound
 import XsdataModel.Proofs.OccursList
 import XsdataModel.Proofs.OccursGroups
+import XsdataModel.Proofs.AttrsField
 
 namespace Props.C02
 open Py Xs.Gen
@@ -286,5 +287,82 @@ example : ∃ w, GMatches exDefs exT2 w ∧ 2 ≤ w.count ['a'] :=
 
 /-- a dangling reference makes generation fail (`CodegenError: Unknown group reference`) -/
 theorem dangling_reference_fails : occursG exDefs (.ref ['h'] 1 1) = none := by decide
+
+/-! ## 4. `use` / `default` / `fixed`: requiredness and default of the generated field
+
+`attrField d` / `elemField d` : the dataclass field (or none) the pipeline generates for an
+`xs:attribute` / `xs:element` declaration (`SchemaMapper.build_class_attribute`,
+`SanitizeAttributesDefaultValue`, `ValidateAttributesOverrides`, `Filters.field_definition`;
+model `Gen/Attrs`, case analyses `Proofs/AttrsField`). `AttrDecl.allows` / `normalized` : what a
+valid element may carry for the declaration and its schema-normalized value (Spec). -/
+
+/-- **Attributes are read faithfully**: for every valid declaration, whatever a schema-valid
+element carries for it (`allows`), the strict parser accepts it and the field holds the
+schema-normalized value: the given value, or the `default` / `fixed` value of an absent
+attribute, or nothing. -/
+theorem attribute_faithful (d : AttrDecl) (hwf : d.wf = true) (x : Option Str) (hx : d.allows x) :
+    readAttr (attrField d) x = some (d.normalized x) :=
+  attribute_faithful_core d hwf x hx
+
+/-- the hypotheses are satisfiable: `use="optional" default="dv"`, attribute absent → `dv` -/
+example : readAttr (attrField { default := some ['d', 'v'] }) none = some (some ['d', 'v']) :=
+  attribute_faithful { default := some ['d', 'v'] } (by decide) none (by simp [AttrDecl.allows])
+
+/-- **A required attribute field is present in every valid document**: a field without default
+(the constructor demands it) only comes from `use="required"`, and then no valid element lacks
+the attribute. -/
+theorem attribute_required_sound (d : AttrDecl) (f : Field) (h : attrField d = some f)
+    (hm : f.default = .missing) : d.use = .required ∧ ¬ d.allows none :=
+  attribute_required_sound_core d f h hm
+
+example : attrField { use := .required } = some { init := true, default := .missing } := by decide
+
+/-- a prohibited attribute gives no field: under `fail_on_unknown_attributes` a document that
+carries it is rejected, as the schema demands -/
+theorem attribute_prohibited (d : AttrDecl) (h : d.use = .prohibited) : attrField d = none := by
+  obtain ⟨use, dflt, fx, tp⟩ := d
+  simp only at h
+  subst h
+  cases dflt <;> cases fx <;> cases tp <;>
+    simp [attrField, fieldOf, sanitize, mapAttribute, shouldResetRequired, shouldResetDefault,
+      defaultValue, typeIsObject, useBounds, GAttr.isList]
+
+/-- **An element field without default belongs to a required single element**: `min ≥ 1`,
+`max = 1` (with `required_sound`: the element is present exactly once in every valid document),
+no `default`/`fixed`, a declared type. -/
+theorem element_missing_default (d : ElemDecl) (f : Field) (h : elemField d = some f)
+    (hm : f.default = .missing) :
+    d.min ≥ 1 ∧ d.max = 1 ∧ d.default = none ∧ d.fixed = none ∧ d.type = .str :=
+  element_missing_default_core d f h hm
+
+example : elemField {} = some { init := true, default := .missing } := by decide
+
+/-- **An element field is a list exactly when the element may repeat** -/
+theorem element_list_iff (d : ElemDecl) (f : Field) (h : elemField d = some f) :
+    f.default = .listFactory ↔ d.max > 1 :=
+  element_list_iff_core d f h
+
+example : elemField { min := 0, max := 3 } = some { init := true, default := .listFactory } := by
+  decide
+
+/-- **An absent optional element is not conjured up from a default**: with `minOccurs="0"` the
+field defaults to `None` whatever `default` / `fixed` the declaration has (XSD applies element
+defaults to *empty present* elements only). -/
+theorem element_optional_absent (d : ElemDecl) (hmin : d.min = 0) (hmax : d.max = 1) :
+    elemField d = some { init := true, default := .none } :=
+  element_optional_absent_core d hmin hmax
+
+example : elemField { min := 0, fixed := some ['f'] } = some { init := true, default := .none } :=
+  element_optional_absent { min := 0, fixed := some ['f'] } rfl rfl
+
+/-- a required single element keeps its `default` / `fixed` value as field default
+(`init=False` for `fixed`) -/
+theorem element_required_default (d : ElemDecl) (hmin : d.min ≥ 1) (hmax : d.max = 1) (v : Str)
+    (hv : defaultValue d.default d.fixed = some v) :
+    elemField d = some { init := d.fixed.isNone, default := .value v } :=
+  element_required_default_core d hmin hmax v hv
+
+example : elemField { fixed := some ['f'] } = some { init := false, default := .value ['f'] } :=
+  element_required_default { fixed := some ['f'] } (by decide) rfl ['f'] rfl
 
 end Props.C02
